@@ -158,8 +158,12 @@ func project(ctx *sql.Context, v interface{}, ty Ty) (map[string]interface{}, er
 	if err != nil {
 		return nil, err
 	}
-	si := func(x int64) map[string]interface{} { return map[string]interface{}{"t": "i", "be": be64(uint64(x)), "sg": true} }
-	ui := func(x uint64) map[string]interface{} { return map[string]interface{}{"t": "i", "be": be64(x), "sg": false} }
+	si := func(x int64) map[string]interface{} {
+		return map[string]interface{}{"t": "i", "be": be64(uint64(x)), "sg": true}
+	}
+	ui := func(x uint64) map[string]interface{} {
+		return map[string]interface{}{"t": "i", "be": be64(x), "sg": false}
+	}
 	switch x := v.(type) {
 	case int8:
 		return si(int64(x)), nil
@@ -465,6 +469,7 @@ func runExec(seed int64, n int, thorough bool, only map[int]bool, out string) {
 			byID[k] = row[1]
 		}
 		first := true
+		seenLit := map[string]bool{}
 		for _, c := range cases {
 			if !stored[c.ID] {
 				continue
@@ -503,7 +508,8 @@ func runExec(seed int64, n int, thorough bool, only map[int]bool, out string) {
 				first = false
 				r.perK[label]++
 				r.rep.Cases++
-				if sv != nil {
+				if sv != nil && s == "utf8mb4" && !seenLit[c.Lit.SQL] { // distinct non-NULL values of this column
+					seenLit[c.Lit.SQL] = true
 					nontrivial++
 				}
 				if len(r.rep.Samples) < 4 && sv != nil && r.rep.Cases%97 == 3 {
